@@ -887,6 +887,81 @@ def status_gate_rule(A, cf, rule):
         A.floor(rule, '%s %s paths that decode a body' % (name, fn), n, 1)
 
 
+def request_result_rule(A, cf, rule):
+    """What _send_request returned is classified before it is used: the status of a response
+    is read only after both failure shapes (None, a text) were excluded; in the write loop a
+    POST that did not get a 2xx ends the loop; and _send_request itself returns the response
+    it got."""
+    name = cf['name']
+    st = re.compile(r'\br\.status(_code)?\b')
+    for fn in ('_connect_polling', '_read_loop_polling', '_write_loop'):
+        fi, ps = cpaths(A, cf, fn, keep={'r'}, loop_bound=1)
+        n = 0
+        for p in ps:
+            v = PV(p)
+            first = next((i for i, e in enumerate(v.ev) if e.kind == 'guard' and e.depth == 0 and
+                          st.search(txt(e.expr))), None)
+            if first is None:
+                continue
+            n += 1
+            ga = {atom(e.expr, e.pol) for e in v.ev[:first] if e.kind == 'guard'}
+            A.check(('r is None', False) in ga and ('isinstance(r, str)', False) in ga,
+                    rule + '.request-failures', '%s %s: the status is read only from a real '
+                    'response (neither None nor an error text)' % (name, fn),
+                    A.site(fi, v.node(first)), key='%s-%s-result-classified' % (name, fn),
+                    detail=v.describe(40),
+                    behaviour='a failed request is treated as a response: AttributeError kills '
+                              'the loop, no disconnect event')
+            if fn == '_write_loop':
+                forms = set()
+                last = first
+                for i, e in enumerate(v.ev):
+                    if e.kind == 'guard' and e.depth == 0 and st.search(txt(e.expr)) and \
+                            e.cls != 'decided':
+                        f = int_ordering(unawait(e.expr), e.pol, {'r.status_code': ('S', 0),
+                                                                   'r.status': ('S', 0)})
+                        if f is not None and len(f[0]) == 1:
+                            forms.add((tuple(sorted(f[0].items()))[0], f[1]))
+                        last = i
+                nxt_head = next((j for j in range(last + 1, len(v.ev))
+                                 if v.ev[j].kind == 'guard' and
+                                 atom(v.ev[j].expr, True)[0] == "self.state == 'connected'"),
+                                len(v.ev))
+                ended = any(e.kind == 'brk' for e in v.ev[last:nxt_head]) or \
+                    any(e.kind == 'write' and txt(e.target) == 'self.write_loop_task'
+                        for e in v.ev[last:nxt_head])
+                # only the status tests of this round (since the last evaluation of the loop
+                # condition) say how this POST was answered
+                prev_head = max([j for j in range(last) if v.ev[j].kind == 'guard' and
+                                 atom(v.ev[j].expr, True)[0] == "self.state == 'connected'"] + [0])
+                forms = set()
+                for e in v.ev[prev_head:last + 1]:
+                    if e.kind == 'guard' and e.depth == 0 and st.search(txt(e.expr)) and \
+                            e.cls != 'decided':
+                        f = int_ordering(unawait(e.expr), e.pol, {'r.status_code': ('S', 0),
+                                                                   'r.status': ('S', 0)})
+                        if f is not None and len(f[0]) == 1:
+                            forms.add((tuple(sorted(f[0].items()))[0], f[1]))
+                good = (('S', 1), -200) in forms and (('S', -1), 299) in forms
+                A.check(good != ended, rule + '.status-gate', '%s _write_loop: the loop goes on '
+                        'after a POST exactly when it was answered 2xx' % name,
+                        A.site(fi, v.node(last)), key='%s-write-loop-post-status' % name,
+                        detail=v.describe(60),
+                        behaviour='a refused POST is ignored (messages lost silently) or every '
+                                  'successful POST ends the write loop')
+        A.floor(rule, '%s %s paths that read the response status' % (name, fn), n, 1)
+    sr = A.func(cf['cls'] + '._send_request')
+    rets = [x for x in own_nodes(sr) if isinstance(x, ast.Return)]
+    main = [x for x in rets if not any(isinstance(h, ast.ExceptHandler) and
+                                       any(x is y for y in ast.walk(h))
+                                       for h in ast.walk(sr.node))]
+    A.check(bool(main) and all(isinstance(unawait(x.value), ast.Call) for x in main if True),
+            rule + '.request-failures', '%s _send_request returns the response of the request '
+            'it made' % name, A.site(sr), key='%s-send-request-return' % name,
+            detail=[ast.unparse(x) for x in main],
+            behaviour='every request looks refused: the client never connects')
+
+
 def loop_condition_rule(A, cf, rule):
     """The client's loops run while (and only while) the client is connected."""
     name = cf['name']
